@@ -556,12 +556,15 @@ def print_oracle(env):
 # oracle only: positions far outside machine words; items and needles that are themselves lists (plain or lazy)
 # ---------------------------------------------------------------------------------------
 FAR = [2 ** 31 - 1, 2 ** 31, 2 ** 32 + 1, 2 ** 63 - 1, 2 ** 63, 2 ** 63 + 1, 2 ** 64, 2 ** 64 + 5, 10 ** 30, 10 ** 100 + 7]
-RICH_ITEMS = [1, 0, "a", "", [2, 3], [], [4, [5]], [[]], [0], ["a"], [2, 3]]
+RICH_ITEMS = [1, 0, "a", "", [2, 3], [], [4, [5]], [[]], [0], ["a"], [2, 3], ("q", 1, 2), ("q", 1, 3), [("q", 1, 3)], [("q", -7, 2), 1], ("q", 10 ** 20 + 1, 10 ** 20)]
 
 
 def realise(spec, pattern, pos=0):
     """nested plain lists -> the same value with every list plain or lazy as the bit pattern says"""
     from vyxal.LazyList import LazyList
+    if isinstance(spec, tuple):                      # ("q", p, q): an exact fraction
+        import sympy
+        return sympy.Rational(spec[1], spec[2]), pos
     if not isinstance(spec, list):
         return spec, pos
     lazy = (pattern >> (pos % 16)) & 1
@@ -575,11 +578,16 @@ def realise(spec, pattern, pos=0):
 
 def plain(x):
     from vyxal.LazyList import LazyList
+    import sympy
+    if isinstance(x, tuple) and len(x) == 3 and x[0] == "q":
+        return plain(sympy.Rational(x[1], x[2]))
     if isinstance(x, (list, tuple, LazyList)):
         return [plain(y) for y in x]
-    import sympy
     if isinstance(x, (bool, int, sympy.Integer)):
         return int(x)
+    if isinstance(x, sympy.Rational):
+        import fractions
+        return fractions.Fraction(int(x.p), int(x.q))
     return x
 
 
